@@ -12,6 +12,7 @@ def showEv : Ev → String
   | .ret i r => s!"ret:{i}:{showRes r}"
   | .cbClose sid => s!"gclose:{sid}"
   | .cbData i => s!"cb:{i}"
+  | .refused op => s!"refused:{opName op}"
   | .stopReturned => "stopReturned"
   | .destroyed => "destroyed"
 
@@ -44,11 +45,26 @@ def parseStep : List String → Option Step
   | ["tdWake"] => some .tdWake
   | ["tdDestroy"] => some .tdDestroy
   | ["ioSelfDestruct"] => some .ioSelfDestruct
+  | ["tdOrphan"] => some .tdOrphan
+  | ["flushSelfDestruct", i] => do let i ← i.toNat?; pure (.flushSelfDestruct i)
+  | ["ioSyncCall", "connectSync"] => some (.ioSyncCall .connectSync)
+  | ["ioSyncCall", "receiveSync"] => some (.ioSyncCall .receiveSync)
+  | ["ioSyncCall", "sendSync"] => some (.ioSyncCall .sendSync)
+  | ["ioSyncCall", "setReadMode"] => some (.ioSyncCall .setReadMode)
   | _ => none
 
 def showTd : Td → String
   | .idle => "idle" | .fenced => "fenced" | .joining => "joining" | .waiting a => s!"waiting{bit a}" | .waited => "waited"
-  | .ioWaiting a => s!"ioWaiting{bit a}" | .ioReleased => "ioReleased" | .destroyed => "destroyed"
+  | .ioWaiting a => s!"ioWaiting{bit a}" | .ioReleased => "ioReleased" | .flushOwned => "flushOwned" | .destroyed => "destroyed"
+
+/-- for a `wake i …` step: was thread `i` held as parked-and-notified (`1`), parked-and-not-notified (`0`), or not parked (`-`)
+BEFORE the step? (a forced time-out of a thread the model holds as notified is a lost notification of the implementation) -/
+def parkedFlag (s : State) : Step → String
+  | .wake i _ =>
+    (match s.threads[i]? with
+     | some t => (match t.pc with | .parked a => bit a | _ => "-")
+     | none => "-")
+  | _ => "-"
 
 def step (s : State) : List String → State × String
   | "reset" :: rest =>
@@ -61,7 +77,7 @@ def step (s : State) : List String → State × String
       let d := ok s sp
       let s' := Iora.Teardown.step s sp
       let evs := (s'.log.drop s.log.length).map showEv
-      (s', s!"{joinEvs evs} d={bit d} uaf={bit s'.uaf}")
+      (s', s!"{joinEvs evs} d={bit d} uaf={bit s'.uaf} pk={parkedFlag s sp} sb={bit s'.ioSelfBlock}")
     | none => (s, "bad-op")
   | ["state"] => (s, s!"ar={s.activeReceives} ac={s.activeConnects} af={s.activeFlushes} sh={bit s.shuttingDown} td={showTd s.td} io={bit s.ioAlive}")
   | _ => (s, "bad-op")
